@@ -32,6 +32,18 @@ class V:
         self.rule = rule
 
 
+class W:
+    """Whole-tree benign twin: a behaviour-preserving transformation of every source file (sa/selftests/benign.py)."""
+    expect = 'silent'
+    mention = None
+    rule = None
+    file = None
+
+    def __init__(self, mode):
+        self.mode = mode
+        self.name = 'benign-tree-' + mode
+
+
 def _rx(old):
     parts = [re.escape(p) for p in old.split()]
     return re.compile(r'\s+'.join(parts))
@@ -64,6 +76,25 @@ def run_variant(pid, v, base):
     d = tempfile.mkdtemp(prefix='vsa_%s_' % pid, dir=base)
     try:
         copy_tree(d)
+        if isinstance(v, W):
+            from .benign import transform
+            n = 0
+            for dirpath, dirnames, filenames in os.walk(os.path.join(d, 'basic_robotics')):
+                for fn in filenames:
+                    if fn.endswith('.py'):
+                        fp = os.path.join(dirpath, fn)
+                        with open(fp, encoding='utf-8') as f:
+                            text = f.read()
+                        try:
+                            new = transform(text, v.mode, None)
+                        except SyntaxError:
+                            continue
+                        with open(fp, 'w', encoding='utf-8') as f:
+                            f.write(new)
+                        n += 1
+            if not n:
+                return ('skip', 'no file could be transformed', '')
+            return _run_check(pid, v, d)
         path = os.path.join(d, v.file)
         if not os.path.exists(path):
             return ('skip', 'file vanished: ' + v.file, '')
@@ -78,6 +109,13 @@ def run_variant(pid, v, base):
             return ('skip', 'variant does not compile: %s' % e, '')
         with open(path, 'w', encoding='utf-8') as f:
             f.write(new)
+        return _run_check(pid, v, d)
+    finally:
+        shutil.rmtree(d, ignore_errors=True)
+
+
+def _run_check(pid, v, d):
+    if True:
         env = dict(os.environ, VERIF_REPO=d, VERIF_NO_EVIDENCE='1', VERIF_TIER='quick', PYTHONDONTWRITEBYTECODE='1')
         p = subprocess.run([sys.executable, '-m', 'sa.check', pid, '--tier', 'quick'], cwd=VERIF, env=env,
                            capture_output=True, text=True, timeout=600)
@@ -95,8 +133,6 @@ def run_variant(pid, v, base):
             if p.returncode != 0:
                 return ('false-alarm', 'benign twin produced exit %d' % p.returncode, out[-1500:])
             return ('ok', 'silent', '')
-    finally:
-        shutil.rmtree(d, ignore_errors=True)
 
 
 def variants_for(pid):
@@ -113,6 +149,8 @@ def run_for(pid, rep, seed):
         rep.note('no self-test variants registered for %s' % pid)
         rep.selftest = {'variants': 0}
         return
+    from .benign import MODES
+    vs = vs + [W(m) for m in MODES]
     rnd = random.Random(seed)
     rnd.shuffle(vs)
     base = tempfile.mkdtemp(prefix='vsa_base_')
